@@ -284,7 +284,7 @@ func gen(t *rapid.T) Case {
 	if sameBase {
 		files = rapid.IntRange(2, 3).Draw(t, "files-samebase")
 	}
-	s := sdlgen.Generate(t, sdlgen.Options{SameBase: sameBase, ExecNames: splitModel, Files: files, Roots: true, Hostile: hostile, DeprecatedInputs: true, MaxTypes: 12, ExecDirectives: true})
+	s := sdlgen.Generate(t, sdlgen.Options{SameBase: sameBase, ExecNames: splitModel, RichDirectiveArgs: true, Files: files, Roots: true, Hostile: hostile, DeprecatedInputs: true, MaxTypes: 12, ExecDirectives: true})
 	schema, err := loadSchema(s.Files)
 	if err != nil {
 		vfrun.Label("generated-schema-invalid(dropped)")
